@@ -438,6 +438,7 @@ func runC20(ctx *h.Ctx) int {
 		if !base.OK() {
 			k.Count("base_rejected", 1)
 			k.Count("base_rejected: "+rejectFamily(base.ErrString()), 1)
+			rejectedValid(k, prog, base, false)
 			return
 		}
 		inj := inject(k, g, prog, base.Out)
@@ -494,6 +495,7 @@ func runC20(ctx *h.Ctx) int {
 		k.Count("evaluations", 1)
 		if !base.OK() {
 			k.Count("base_rejected", 1)
+			rejectedValid(k, prog, base, false)
 			return
 		}
 		word := []string{"break", "continue"}[k.R.IntN(2)]
